@@ -1,289 +1,365 @@
 import Proofs.Lemmas.HeapWrite
 /-!
-C06 helper lemmas, part 5: one statement that writes at a root, executed on a heap
-state satisfying `NoUnintendedSharing`, keeps the invariant and denotes the spec's step.
+C06 helper lemmas: the statements that write through a place of any depth —
+`place[k] = v` (creating missing keys on the way), `unset(place[k])`, `place->push(…)` —
+executed on a state satisfying `NoSharing`, keep the invariant and denote the spec's step.
 -/
 namespace Proofs.Heap
 open Model.Heap
 open Spec.Val (abs eraseVal eraseL Tree Entry)
 
-/-! ### right-hand sides, in the form the step proofs use -/
+/-- the spec's step for one statement -/
+def SimOpt (s : St) (op : Op) : Prop :=
+  match stepOpt .fixed s op with
+  | some s' => Inv s' ∧ Spec.Val.stepOpt (abs s) op = some (abs s')
+  | none => Spec.Val.stepOpt (abs s) op = none
 
-theorem evalRV_cases (s : St) (r : RV) :
-    (evalRV .fixed s r = none ∧ Spec.Val.evalRV (abs s) r = none) ∨
-    ∃ v n1, evalRV .fixed s r = some (v, { s with next := n1 }) ∧
-      Spec.Val.evalRV (abs s) r = some (eraseVal v) ∧ s.next ≤ n1 ∧
-      (∀ i ∈ innerAids v, InnerOf s i ∨ (s.next ≤ i ∧ i < n1)) := by
-  cases r with
-  | int n => exact Or.inr ⟨_, s.next, rfl, rfl, Nat.le_refl _, by simp [innerAids]⟩
-  | null => exact Or.inr ⟨_, s.next, rfl, rfl, Nat.le_refl _, by simp [innerAids]⟩
-  | rd p =>
-    cases h : readPlace s p with
-    | none => exact Or.inl ⟨by simp [evalRV, h], by simp [Spec.Val.evalRV, abs_read, h]⟩
-    | some v =>
-      exact Or.inr ⟨v, s.next, by simp [evalRV, h], by simp [Spec.Val.evalRV, abs_read, h], Nat.le_refl _,
-        fun i hi => Or.inl (read_inner s p v h i hi)⟩
-  | call p =>
-    cases h : readPlace s p with
-    | none => exact Or.inl ⟨by simp [evalRV, h], by simp [Spec.Val.evalRV, abs_read, h]⟩
-    | some v =>
-      exact Or.inr ⟨v, s.next, by simp [evalRV, h], by simp [Spec.Val.evalRV, abs_read, h], Nat.le_refl _,
-        fun i hi => Or.inl (read_inner s p v h i hi)⟩
-  | lit l =>
-    have := alloc_spec s l s.next
-    cases h : Lit.alloc .fixed s l s.next with
-    | none => simp only [h] at this; exact Or.inl ⟨by simp [evalRV, h], by simp [Spec.Val.evalRV, this]⟩
-    | some vn =>
-      obtain ⟨v, n⟩ := vn
-      simp only [h] at this
-      obtain ⟨e, b, a⟩ := this
-      exact Or.inr ⟨v, n, by simp [evalRV, h], by simp [Spec.Val.evalRV, e], b, a⟩
+/-! ### what the place holds, on both sides -/
 
-/-- identities of a stored copy: its fresh root and inner identities of the state / fresh ones -/
-theorem clone_aids {s : St} (hinv : Inv s) (v : Val) (n1 : Nat) (hle : s.next ≤ n1)
-    (hin : ∀ i ∈ innerAids v, InnerOf s i ∨ (s.next ≤ i ∧ i < n1)) :
-    (∀ i ∈ (cloneOnStore v n1).1.aids, InnerOf s i ∨ (s.next ≤ i ∧ i < (cloneOnStore v n1).2)) ∧
-    (∀ i ∈ (cloneOnStore v n1).1.aids, i < (cloneOnStore v n1).2) ∧
-    (∀ a k, (cloneOnStore v n1).1 = .arr a k → s.next ≤ a ∧ ∀ i ∈ aidsL k, i < a) := by
-  cases v with
-  | sc sc => simp [cloneOnStore, Val.aids]
-  | arr a kids =>
-    simp only [cloneOnStore, Val.aids, List.mem_cons, innerAids] at *
-    have hlt : ∀ i ∈ aidsL kids, i < n1 := by
-      intro i hi
-      rcases hin i hi with h | h
-      · have := InnerOf.lt hinv h; omega
-      · exact h.2
-    refine ⟨?_, ?_, ?_⟩
-    · rintro i (e | e)
-      · exact Or.inr ⟨by omega, by omega⟩
-      · rcases hin i e with h | h
-        · exact Or.inl h
-        · exact Or.inr ⟨h.1, by omega⟩
-    · rintro i (e | e)
-      · omega
-      · have := hlt i e; omega
-    · intro a' k' e; injection e with e1 e2; subst e1; subst e2; exact ⟨hle, hlt⟩
+theorem eraseVal_arr_inv (u : Val) (l : List Entry) (h : eraseVal u = .arr l) : ∃ a kids, u = .arr a kids := by
+  cases u with
+  | sc sc => simp [eraseVal] at h
+  | arr a kids => exact ⟨a, kids, rfl⟩
 
-/-! ### mutation without write-back (`$x->push(…)`) -/
+/-- no array at the place in the heap state: none in the denoted state either -/
+theorem read_not_arr (s : St) (b : Place) (h : ∀ a kids, readPlace s b ≠ some (.arr a kids)) :
+    ∀ l, Spec.Val.read (abs s) b ≠ some (.arr l) := by
+  intro l hl
+  rw [abs_read] at hl
+  cases hr : readPlace s b with
+  | none => simp [hr] at hl
+  | some u =>
+    simp only [hr, Option.map_some, Option.some.injEq] at hl
+    obtain ⟨a, kids, e⟩ := eraseVal_arr_inv u l hl
+    exact h a kids (by rw [hr, e])
 
-theorem root_mutate {s : St} (hinv : Inv s) (b : Place) (hb : b.isRoot = true) (a : Nat)
-    (kids kids' : List Slot) (hr : readPlace s b = some (.arr a kids)) (n1 : Nat) (hn : s.next ≤ n1)
-    (hk : KidsOK s n1 kids') (g : List Entry → List Entry) (hg : eraseL kids' = g (eraseL kids)) :
-    Inv { (s.updArr a (fun _ => kids')) with next := n1 } ∧
-    Spec.Val.onArray (abs s) b g = some (abs { (s.updArr a (fun _ => kids')) with next := n1 }) := by
-  obtain ⟨P, hroot, hP⟩ := readPlace_root s b hb _ hr
-  have hupd := updArr_eq_setHolder hinv P a kids hP (fun _ => kids')
-  have ha : a < s.next := hinv.bound _ _ hP a (by simp [Val.aids])
-  rw [hupd]
-  refine ⟨?_, ?_⟩
-  · apply Inv.overwrite hinv P (.arr a kids) (.arr a kids') n1 hP hn
-    · intro a' k' e; injection e with e1 e2; subst e1; exact Or.inl ⟨kids, rfl⟩
-    · intro i hi
-      rcases hk i (by simpa [innerAids] using hi) with h | h
-      · exact Or.inl h
-      · exact Or.inr h.1
-    · intro i hi
-      simp only [Val.aids, List.mem_cons] at hi
-      rcases hi with e | e
-      · omega
-      · rcases hk i e with h | h
-        · have := InnerOf.lt hinv h; omega
-        · exact h.2
-  · cases b with
-    | idx b k => simp [Place.isRoot] at hb
-    | var x =>
-      simp only [rootPos] at hroot
-      cases hc : s.names[x]? with
-      | none => simp [hc] at hroot
-      | some c =>
-        simp [hc] at hroot; subst hroot
-        show Spec.Val.onArray (abs s) (.var x) g = some (abs (setHolder s (.v c) (.arr a kids')))
-        rw [abs_setHolder_v s x c _ hc]
-        simp only [holder?] at hP
-        simp only [Spec.Val.onArray, Spec.Val.modify, abs_varVal?, St.varVal?, hc, hP, Option.map_some, eraseVal, hg]
-    | prop x p =>
-      simp only [rootPos] at hroot
-      cases hh : s.varObj? x with
-      | none => simp [hh] at hroot
-      | some h =>
-        simp [hh] at hroot; subst hroot
-        show Spec.Val.onArray (abs s) (.prop x p) g = some (abs (setHolder s (.p h p) (.arr a kids')))
-        rw [abs_setHolder_p]
-        simp only [holder?] at hP
-        simp only [Spec.Val.onArray, Spec.Val.modify, abs_varObj?, hh, abs_propVal?, hP, Option.map_some, eraseVal, hg]
+theorem keyExists_next (s : St) (n : Nat) : (b : Place) → (k : IKey) →
+    keyExists { s with next := n } b k = keyExists s b k
+  | .var x, k => by simp only [keyExists, readPlace_next]
+  | .prop x p, k => by simp only [keyExists, readPlace_next]
+  | .idx b' k', k => by simp only [keyExists, readPlace_next, keyExists_next s n b' k']
 
-/-- no array at a root place: the spec does nothing either -/
-theorem onArray_none (s : St) (b : Place) (hb : b.isRoot = true) (g : List Entry → List Entry)
-    (h : ∀ a kids, readPlace s b ≠ some (.arr a kids)) : Spec.Val.onArray (abs s) b g = none := by
+/-- `keyExists` is `existsAt` on the tree of the root name -/
+theorem keyExists_path (s : St) : (b : Place) → (k : IKey) →
+    keyExists s b k = ((readPlace s b.root).map eraseVal).bind (existsAt (pathOf b ++ [k]))
+  | .var x, k => by
+      simp only [keyExists, Place.root, pathOf, List.nil_append]
+      cases h : readPlace s (.var x) with
+      | none => rfl
+      | some w =>
+        cases w with
+        | sc sc => simp [existsAt_single, eraseVal]
+        | arr a kids => simp [existsAt_single, eraseVal]
+  | .prop x p, k => by
+      simp only [keyExists, Place.root, pathOf, List.nil_append]
+      cases h : readPlace s (.prop x p) with
+      | none => rfl
+      | some w =>
+        cases w with
+        | sc sc => simp [existsAt_single, eraseVal]
+        | arr a kids => simp [existsAt_single, eraseVal]
+  | .idx b' k', k => by
+      have ih := keyExists_path s b' k'
+      simp only [keyExists, ih, Place.root, pathOf]
+      have hrd : readPlace s (.idx b' k') = (readPlace s b'.root).bind (walk (pathOf b' ++ [k'])) :=
+        readPlace_root_path s (.idx b' k')
+      rw [hrd]
+      cases hw : readPlace s b'.root with
+      | none => rfl
+      | some w =>
+        simp only [Option.map_some, Option.bind_some, existsAt_snoc, walk_erase]
+        cases existsAt (pathOf b' ++ [k']) (eraseVal w) with
+        | none => rfl
+        | some bb =>
+          cases bb with
+          | false => rfl
+          | true =>
+            dsimp only
+            cases walk (pathOf b' ++ [k']) w with
+            | none => rfl
+            | some u =>
+              cases u with
+              | sc sc => simp [eraseVal]
+              | arr a kids => simp [eraseVal]
+
+/-! ### `storeAt`: the array case of `IndexExpression.SetValue` with the value prepared -/
+
+theorem storeAt_sim {s : St} (hinv : Inv s) (b : Place) (k : Option IKey) (v : Val)
+    (hv : ∀ i, vcnt i v ≤ 1 ∧ (0 < vcnt i v → scnt s i = 0 ∧ i < s.next)) :
+    match storeAt .fixed s b k v with
+    | some s' => Inv s' ∧ s.next ≤ s'.next ∧ (∀ i, scnt s' i ≤ scnt s i + vcnt i v) ∧
+        ∀ c, Spec.Val.onArray (abs s) c b (fun l => Spec.Val.store l k (eraseVal v)) = some (abs s')
+    | none => ∀ a kids, readPlace s b ≠ some (.arr a kids) := by
+  simp only [storeAt]
+  cases hr : readPlace s b with
+  | none => simp
+  | some u =>
+    cases u with
+    | sc sc => simp
+    | arr a kids =>
+      simp only
+      obtain ⟨l', hact, herase⟩ := storeAct_fixed kids k s.next v
+      rw [hact]
+      have key : ∀ s1 : St, s1 = { (s.updArr a (fun _ => l')) with next := s.next + 1 } →
+          Inv (writeBack .fixed s1 b) ∧ s.next ≤ (writeBack .fixed s1 b).next ∧
+          (∀ i, scnt (writeBack .fixed s1 b) i ≤ scnt s i + vcnt i v) ∧
+          ∀ c, Spec.Val.onArray (abs s) c b (fun l => Spec.Val.store l k (eraseVal v)) =
+            some (abs (writeBack .fixed s1 b)) := by
+        intro s1 hs1
+        obtain ⟨i1, i2, i3, i4, _⟩ := inplace hinv b a kids l' hr (s.next + 1) (by omega) (fun i => vcnt i v)
+          (fun i => cnt_storeAct i kids l' k s.next v hact)
+          (fun i => ⟨(hv i).1, fun h => ⟨((hv i).2 h).1, by have := ((hv i).2 h).2; omega⟩⟩)
+        rw [← hs1] at i1 i2 i3 i4
+        obtain ⟨w1, w2, w3, w4⟩ := writeBack_ok b i1 a l' i2
+        have hnx : s1.next = s.next + 1 := by rw [hs1]
+        refine ⟨w1, by omega, ?_, ?_⟩
+        · intro i; have := w4 i; have := i3 i; omega
+        · intro c; rw [w2]; exact i4 c _ herase
+      exact key _ rfl
+
+/-! ### `place[k] = v` -/
+
+/-- the claim for `setIdx` started with the allocator at `n1` -/
+def SetIdxGoal (s : St) (b : Place) (k : Option IKey) (v : Val) (n1 : Nat) : Prop :=
+  match setIdx .fixed b { s with next := n1 } k v with
+  | some s' => Inv s' ∧ n1 ≤ s'.next ∧ (∀ i, i < n1 → scnt s' i ≤ scnt s i) ∧
+      Spec.Val.onArray (abs s) true b (fun l => Spec.Val.store l k (eraseVal v)) = some (abs s')
+  | none => Spec.Val.onArray (abs s) true b (fun l => Spec.Val.store l k (eraseVal v)) = none
+
+/-- the copy of the stored value, as `storeAt_sim` wants it -/
+theorem clone_hv {s : St} (hinv : Inv s) (v : Val) (n1 : Nat) (hn : s.next ≤ n1) (s1 : St)
+    (h1 : ∀ i, n1 ≤ i → i < (cloneOnStore .fixed v n1).2 → scnt s1 i = 0)
+    (h2 : (cloneOnStore .fixed v n1).2 ≤ s1.next) :
+    ∀ i, vcnt i (cloneOnStore .fixed v n1).1 ≤ 1 ∧
+      (0 < vcnt i (cloneOnStore .fixed v n1).1 → scnt s1 i = 0 ∧ i < s1.next) := by
+  obtain ⟨_, _, cf⟩ := cloneOnStore_spec v n1
+  intro i
+  obtain ⟨f1, f2⟩ := cf i
+  refine ⟨f1, fun hp => ?_⟩
+  have := f2 hp
+  exact ⟨h1 i this.1 this.2, by omega⟩
+
+theorem setIdx_root (b : Place) (hb : b.isRoot = true) (s : St) (k : Option IKey) (v : Val) :
+    setIdx .fixed b s k v =
+      storeAt .fixed { s with next := (cloneOnStore .fixed v s.next).2 } b k (cloneOnStore .fixed v s.next).1 := by
   cases b with
-  | idx b k => simp [Place.isRoot] at hb
-  | var x =>
-    simp only [Spec.Val.onArray, Spec.Val.modify, abs_varVal?]
-    simp only [readPlace] at h
-    cases hv : s.varVal? x with
-    | none => rfl
-    | some v =>
-      cases v with
-      | sc sc => simp [eraseVal]
-      | arr a kids => exact (h a kids hv).elim
-  | prop x p =>
-    simp only [Spec.Val.onArray, Spec.Val.modify, abs_varObj?, abs_propVal?]
-    simp only [readPlace] at h
-    cases hh : s.varObj? x with
-    | none => rfl
-    | some hd =>
-      simp only [hh] at h
-      cases hv : s.propVal? hd p with
-      | none => simp [hv]
-      | some v =>
-        cases v with
-        | sc sc => simp [hv, eraseVal]
-        | arr a kids => exact (h a kids hv).elim
+  | idx b k' => simp [Place.isRoot] at hb
+  | var x => simp [setIdx, Cfg.fixed]
+  | prop x p => simp [setIdx, Cfg.fixed]
 
-/-! ### objects -/
+theorem setIdx_idx (b2 : Place) (k2 : IKey) (s : St) (k : Option IKey) (v : Val) :
+    setIdx .fixed (.idx b2 k2) s k v =
+      storeAt .fixed
+        (match keyExists { s with next := (cloneOnStore .fixed v s.next).2 } b2 k2 with
+         | some false =>
+           (match setIdx .fixed b2 { s with next := (cloneOnStore .fixed v s.next).2 + 1 } (some k2)
+               (.arr (cloneOnStore .fixed v s.next).2 []) with
+            | some s' => s'
+            | none => { s with next := (cloneOnStore .fixed v s.next).2 })
+         | _ => { s with next := (cloneOnStore .fixed v s.next).2 })
+        (.idx b2 k2) k (cloneOnStore .fixed v s.next).1 := by
+  simp only [setIdx, show Cfg.fixed.cloneOnElemStore = true from rfl, if_true]
+  rfl
 
-/-- `cloneProps`: same values up to identity, fresh distinct roots, same inner lists -/
-theorem cloneProps_spec : (ps : List Val) → (n : Nat) →
-    ((cloneProps ps n).1.map eraseVal = ps.map eraseVal) ∧ n ≤ (cloneProps ps n).2 ∧
-    (∀ (j a : Nat) (k : List Slot), (cloneProps ps n).1[j]? = some (Val.arr a k) →
-      n ≤ a ∧ a < (cloneProps ps n).2 ∧ ∃ a0, ps[j]? = some (Val.arr a0 k)) ∧
-    (∀ (j1 j2 a : Nat) (k1 k2 : List Slot), (cloneProps ps n).1[j1]? = some (Val.arr a k1) →
-      (cloneProps ps n).1[j2]? = some (Val.arr a k2) → j1 = j2)
-  | [], n => by simp [cloneProps]
-  | v :: r, n => by
-      obtain ⟨ce, cn, ci, cr⟩ := cloneOnStore_spec v n
-      obtain ⟨e, le, rng, inj⟩ := cloneProps_spec r (cloneOnStore v n).2
-      have hrange0 : ∀ a k, (cloneOnStore v n).1 = .arr a k → a = n ∧ (cloneOnStore v n).2 = n + 1 ∧ ∃ a0, v = .arr a0 k := by
-        intro a k h
-        cases v with
-        | sc sc => simp [cloneOnStore] at h
-        | arr a0 k0 => simp [cloneOnStore] at h ⊢; obtain ⟨h1, h2⟩ := h; exact ⟨h1.symm, h2⟩
-      simp only [cloneProps]
-      refine ⟨by simp [ce, e], by omega, ?_, ?_⟩
-      · intro j a k h
-        cases j with
-        | zero =>
-          simp at h
-          obtain ⟨h1, h2, a0, h3⟩ := hrange0 a k h
-          exact ⟨by omega, by omega, a0, by simp [h3]⟩
-        | succ j =>
-          simp at h
-          obtain ⟨h1, h2, h3⟩ := rng j a k h
-          exact ⟨by omega, h2, by simpa using h3⟩
-      · intro j1 j2 a k1 k2 h1 h2
-        cases j1 with
-        | zero =>
-          cases j2 with
-          | zero => rfl
-          | succ j2 =>
-            simp at h1 h2
-            obtain ⟨e1, e2, _⟩ := hrange0 a k1 h1
-            obtain ⟨e3, _, _⟩ := rng j2 a k2 h2
-            omega
-        | succ j1 =>
-          cases j2 with
-          | zero =>
-            simp at h1 h2
-            obtain ⟨e1, e2, _⟩ := hrange0 a k2 h2
-            obtain ⟨e3, _, _⟩ := rng j1 a k1 h1
-            omega
-          | succ j2 =>
-            simp at h1 h2
-            rw [inj j1 j2 a k1 k2 h1 h2]
+theorem setIdx_root_sim {s : St} (hinv : Inv s) (b : Place) (hb : b.isRoot = true) (k : Option IKey) (v : Val)
+    (n1 : Nat) (hn : s.next ≤ n1) : SetIdxGoal s b k v n1 := by
+  unfold SetIdxGoal
+  rw [setIdx_root _ hb]
+  obtain ⟨ce, cn, cf⟩ := cloneOnStore_spec v n1
+  have key : ∀ sA : St, sA = { s with next := (cloneOnStore .fixed v n1).2 } →
+      (match storeAt .fixed sA b k (cloneOnStore .fixed v n1).1 with
+       | some s' => Inv s' ∧ n1 ≤ s'.next ∧ (∀ i, i < n1 → scnt s' i ≤ scnt s i) ∧
+           Spec.Val.onArray (abs s) true b (fun l => Spec.Val.store l k (eraseVal v)) = some (abs s')
+       | none => Spec.Val.onArray (abs s) true b (fun l => Spec.Val.store l k (eraseVal v)) = none) := by
+    intro sA hsA
+    have hnx : sA.next = (cloneOnStore .fixed v n1).2 := by rw [hsA]
+    have hsc : ∀ i, scnt sA i = scnt s i := by intro i; rw [hsA]; rfl
+    have habs : abs sA = abs s := by rw [hsA]; rfl
+    have hinvA : Inv sA := by rw [hsA]; exact Inv.next hinv _ (by omega)
+    have hs := storeAt_sim hinvA b k (cloneOnStore .fixed v n1).1
+      (clone_hv hinv v n1 hn sA (fun i h1 _ => by rw [hsc]; exact hinv.fresh i (by omega)) (by omega))
+    cases hst : storeAt .fixed sA b k (cloneOnStore .fixed v n1).1 with
+    | none =>
+      rw [hst] at hs
+      simp only
+      exact onArray_root_none (abs s) true b hb _
+        (read_not_arr s _ (fun a kids => by have := hs a kids; rw [hsA, readPlace_next] at this; exact this))
+    | some s' =>
+      rw [hst] at hs
+      obtain ⟨h1, h2, h3, h4⟩ := hs
+      simp only
+      refine ⟨h1, by omega, ?_, ?_⟩
+      · intro i hi
+        have := h3 i
+        have := hsc i
+        obtain ⟨f1, f2⟩ := cf i
+        rcases Nat.eq_zero_or_pos (vcnt i (cloneOnStore .fixed v n1).1) with h0 | hp
+        · omega
+        · have := f2 hp; omega
+      · have := h4 true; rwa [ce, habs] at this
+  exact key _ rfl
 
-theorem holder?_appendObj (s : St) (ps' : List Val) (n' : Nat) (Q : Pos) :
-    holder? { s with objs := s.objs ++ [ps'], next := n' } Q =
-      match Q with
-      | .v c => s.vcells[c]?
-      | .p h p => if h = s.objs.length then ps'[p]? else s.propVal? h p := by
-  cases Q with
-  | v c => rfl
-  | p h p =>
-    simp only [holder?, St.propVal?]
-    by_cases hh : h = s.objs.length
-    · simp [hh]
-    · simp only [hh, if_false]
-      by_cases hlt : h < s.objs.length
-      · simp [List.getElem?_append_left hlt]
-      · have : s.objs.length + 1 ≤ h := by omega
-        have h1 : (s.objs ++ [ps'])[h]? = none := by
-          apply List.getElem?_eq_none; simp; omega
-        have h2 : s.objs[h]? = none := by apply List.getElem?_eq_none; omega
-        simp [h1, h2]
+theorem setIdx_sim : (b : Place) → {s : St} → Inv s → (k : Option IKey) → (v : Val) → (n1 : Nat) →
+    s.next ≤ n1 → SetIdxGoal s b k v n1
+  | .var x, s, hinv, k, v, n1, hn => setIdx_root_sim hinv (.var x) rfl k v n1 hn
+  | .prop x p, s, hinv, k, v, n1, hn => setIdx_root_sim hinv (.prop x p) rfl k v n1 hn
+  | .idx b2 k2, s, hinv, k, v, n1, hn => by
+      unfold SetIdxGoal
+      rw [setIdx_idx]
+      obtain ⟨ce, cn, cf⟩ := cloneOnStore_spec v n1
+      simp only
+      -- abbreviations
+      generalize hv' : (cloneOnStore .fixed v n1).1 = v' at *
+      generalize hn' : (cloneOnStore .fixed v n1).2 = n at *
+      have hinvA : Inv ({ s with next := n } : St) := Inv.next hinv _ (by omega)
+      have hfreshv : ∀ i, vcnt i v' ≤ 1 ∧ (0 < vcnt i v' → n1 ≤ i ∧ i < n) := cf
+      rw [keyExists_next, keyExists_path]
+      -- the frame of the final step, common to all cases
+      have finish : ∀ (s1 : St), Inv s1 → n ≤ s1.next → (∀ i, i < n + 1 → scnt s1 i ≤ scnt s i) →
+          ∀ (tgt : Option Spec.Val.St),
+          (∀ s2, Spec.Val.onArray (abs s1) true (.idx b2 k2) (fun l => Spec.Val.store l k (eraseVal v')) = some (abs s2) →
+            tgt = some (abs s2)) →
+          ((∀ l, Spec.Val.read (abs s1) (.idx b2 k2) ≠ some (.arr l)) → tgt = none) →
+          (match storeAt .fixed s1 (.idx b2 k2) k v' with
+           | some s' => Inv s' ∧ n1 ≤ s'.next ∧ (∀ i, i < n1 → scnt s' i ≤ scnt s i) ∧ tgt = some (abs s')
+           | none => tgt = none) := by
+        intro s1 hinv1 hn1 hfr tgt hsome hnone
+        have hs := storeAt_sim hinv1 (.idx b2 k2) k v' (by
+          intro i
+          obtain ⟨f1, f2⟩ := hfreshv i
+          refine ⟨f1, fun hp => ?_⟩
+          have := f2 hp
+          have h0 : scnt s i = 0 := hinv.fresh i (by omega)
+          have := hfr i (by omega)
+          exact ⟨by omega, by omega⟩)
+        cases hst : storeAt .fixed s1 (.idx b2 k2) k v' with
+        | none =>
+          rw [hst] at hs
+          exact hnone (read_not_arr s1 _ hs)
+        | some s2 =>
+          rw [hst] at hs
+          obtain ⟨h1, h2, h3, h4⟩ := hs
+          refine ⟨h1, by omega, ?_, hsome s2 (h4 true)⟩
+          intro i hi
+          have := h3 i
+          obtain ⟨f1, f2⟩ := hfreshv i
+          have := hfr i (by omega)
+          rcases Nat.eq_zero_or_pos (vcnt i v') with h0 | hp
+          · omega
+          · have := f2 hp; omega
+      have hev : eraseVal v' = eraseVal v := ce
+      cases hw : readPlace s b2.root with
+      | none =>
+        -- no root value: nothing exists, nothing is created
+        simp only [Option.map_none, Option.bind_none]
+        have := finish { s with next := n } hinvA (Nat.le_refl _) (fun i _ => by rw [scnt_next]; omega)
+          (Spec.Val.onArray (abs s) true (.idx b2 k2) (fun l => Spec.Val.store l k (eraseVal v)))
+          (fun s2 h => by rw [← hev, ← abs_next s n]; exact h)
+          (fun h => onArray_create_none (abs s) b2 k2 _
+            (fun T0 hT0 => by
+              rw [abs_read, hw] at hT0; simp at hT0)
+            (by rw [← abs_next s n]; exact h))
+        exact this
+      | some w0 =>
+        simp only [Option.map_some, Option.bind_some]
+        have hT0 : Spec.Val.read (abs s) b2.root = some (eraseVal w0) := by rw [abs_read, hw]; rfl
+        cases hex : existsAt (pathOf b2 ++ [k2]) (eraseVal w0) with
+        | none =>
+          simp only
+          exact finish { s with next := n } hinvA (Nat.le_refl _) (fun i _ => by rw [scnt_next]; omega)
+            (Spec.Val.onArray (abs s) true (.idx b2 k2) (fun l => Spec.Val.store l k (eraseVal v)))
+            (fun s2 h => by rw [← hev, ← abs_next s n]; exact h)
+            (fun h => onArray_create_none (abs s) b2 k2 _
+              (fun T0 hT => by rw [hT0] at hT; injection hT with hT; subst hT; rw [hex]; simp)
+              (by rw [← abs_next s n]; exact h))
+        | some bb =>
+          cases bb with
+          | true =>
+            simp only
+            exact finish { s with next := n } hinvA (Nat.le_refl _) (fun i _ => by rw [scnt_next]; omega)
+              (Spec.Val.onArray (abs s) true (.idx b2 k2) (fun l => Spec.Val.store l k (eraseVal v)))
+              (fun s2 h => by rw [← hev, ← abs_next s n]; exact h)
+              (fun h => onArray_create_none (abs s) b2 k2 _
+                (fun T0 hT => by rw [hT0] at hT; injection hT with hT; subst hT; rw [hex]; simp)
+                (by rw [← abs_next s n]; exact h))
+          | false =>
+            simp only
+            -- the missing parent key is created first
+            have ih := setIdx_sim b2 hinv (some k2) (.arr n []) (n + 1) (by omega)
+            unfold SetIdxGoal at ih
+            have hviv := onArray_vivify (abs s) b2 k2 (eraseVal w0) hT0 hex
+              (fun l => Spec.Val.store l k (eraseVal v))
+            have hE : eraseVal (.arr n []) = Tree.arr [] := by simp [eraseVal, eraseL]
+            cases hrec : setIdx .fixed b2 { s with next := n + 1 } (some k2) (.arr n []) with
+            | none =>
+              rw [hrec] at ih
+              simp only at ih ⊢
+              rw [hE] at ih
+              rw [ih] at hviv
+              simp only [Option.bind_none] at hviv
+              have := finish { s with next := n } hinvA (Nat.le_refl _) (fun i _ => by rw [scnt_next]; omega)
+                (Spec.Val.onArray (abs s) true (.idx b2 k2) (fun l => Spec.Val.store l k (eraseVal v)))
+                (fun s2 h => by
+                  rw [hev, abs_next s n, hviv] at h; cases h)
+                (fun _ => hviv)
+              exact this
+            | some s1 =>
+              rw [hrec] at ih
+              obtain ⟨j1, j2, j3, j4⟩ := ih
+              simp only
+              rw [hE] at j4
+              rw [j4] at hviv
+              simp only [Option.bind_some] at hviv
+              have hrd := read_vivify (abs s) (abs s1) b2 k2 (eraseVal w0) hT0 hex j4
+              exact finish s1 j1 (by omega) j3
+                (Spec.Val.onArray (abs s) true (.idx b2 k2) (fun l => Spec.Val.store l k (eraseVal v)))
+                (fun s2 h => by rw [hviv, ← hev]; exact h)
+                (fun h => (h [] hrd).elim)
 
-theorem propVal?_lt (s : St) (h p : Nat) (w : Val) (hw : s.propVal? h p = some w) : h < s.objs.length := by
-  simp only [St.propVal?] at hw
-  cases hps : s.objs[h]? with
-  | none => simp [hps] at hw
-  | some ps => exact (List.getElem?_eq_some_iff.mp hps).1
+/-! ### `unset(place[k])`, `place->m(…)` -/
 
-/-- a new object whose array-valued properties have fresh, pairwise distinct roots and
-only inner identities of the old state inside -/
-theorem Inv.appendObj {s : St} (hinv : Inv s) (ps' : List Val) (n' : Nat) (hn : s.next ≤ n')
-    (hroots : ∀ (j a : Nat) (k : List Slot), ps'[j]? = some (Val.arr a k) →
-      s.next ≤ a ∧ a < n' ∧ ∀ i ∈ aidsL k, InnerOf s i)
-    (hinj : ∀ (j1 j2 a : Nat) (k1 k2 : List Slot), ps'[j1]? = some (Val.arr a k1) →
-      ps'[j2]? = some (Val.arr a k2) → j1 = j2) :
-    Inv { s with objs := s.objs ++ [ps'], next := n' } := by
-  have hh := holder?_appendObj s ps' n'
-  -- every holder of the new state is an old holder or a property of the new object
-  have hcase : ∀ Q w, holder? { s with objs := s.objs ++ [ps'], next := n' } Q = some w →
-      holder? s Q = some w ∨ (∃ p, Q = .p s.objs.length p ∧ ps'[p]? = some w) := by
-    intro Q w hw
-    rw [hh] at hw
-    cases Q with
-    | v c => exact Or.inl hw
-    | p h p =>
-      simp only at hw
-      by_cases e : h = s.objs.length
-      · simp [e] at hw; exact Or.inr ⟨p, by rw [e], hw⟩
-      · simp [e] at hw; exact Or.inl hw
-  have hold_ne : ∀ p w, holder? s (.p s.objs.length p) = some w → False := by
-    intro p w hw
-    have := propVal?_lt s _ p w hw
-    omega
-  have hinner : ∀ i, InnerOf { s with objs := s.objs ++ [ps'], next := n' } i → InnerOf s i := by
-    rintro i ⟨Q, w, hw, hm⟩
-    rcases hcase Q w hw with h | ⟨p, _, hp⟩
-    · exact ⟨Q, w, h, hm⟩
-    · cases w with
-      | sc sc => simp [innerAids] at hm
-      | arr a k => exact (hroots p a k hp).2.2 i (by simpa [innerAids] using hm)
-  refine ⟨hinv.wf, ?_, ?_, ?_⟩
-  · intro Q1 Q2 a k1 k2 h1 h2
-    rcases hcase Q1 _ h1 with o1 | ⟨p1, e1, n1⟩ <;> rcases hcase Q2 _ h2 with o2 | ⟨p2, e2, n2⟩
-    · exact hinv.uniq Q1 Q2 a k1 k2 o1 o2
-    · have := hinv.bound Q1 _ o1 a (by simp [Val.aids]); have := (hroots p2 a k2 n2).1; omega
-    · have := hinv.bound Q2 _ o2 a (by simp [Val.aids]); have := (hroots p1 a k1 n1).1; omega
-    · rw [e1, e2, hinj p1 p2 a k1 k2 n1 n2]
-  · intro Q a k h1 hI
-    have hI' := hinner a hI
-    rcases hcase Q _ h1 with o | ⟨p, e, np⟩
-    · exact hinv.sep Q a k o hI'
-    · have := InnerOf.lt hinv hI'; have := (hroots p a k np).1; omega
-  · intro Q w hw i hi
-    show i < n'
-    rcases hcase Q w hw with o | ⟨p, e, np⟩
-    · have := hinv.bound Q w o i hi; omega
-    · cases w with
-      | sc sc => simp [Val.aids] at hi
-      | arr a k =>
-        simp only [Val.aids, List.mem_cons] at hi
-        rcases hi with e | e
-        · have := (hroots p a k np).2.1; omega
-        · have := InnerOf.lt hinv ((hroots p a k np).2.2 i e); omega
+theorem sim_unset {s : St} (hinv : Inv s) (b : Place) (k : IKey) : SimOpt s (.unset b k) := by
+  unfold SimOpt
+  simp only [stepOpt, unsetAt, Spec.Val.stepOpt]
+  cases hr : readPlace s b with
+  | none => simp only; exact onArray_nocreate_none (abs s) b _ (read_not_arr s b (by simp [hr]))
+  | some w =>
+    cases w with
+    | sc sc => simp only; exact onArray_nocreate_none (abs s) b _ (read_not_arr s b (by simp [hr]))
+    | arr a kids =>
+      simp only
+      obtain ⟨i1, i2, _, i4, _⟩ := inplace hinv b a kids (unsetKey kids k s.next).1 hr
+        (s.next + (unsetKey kids k s.next).2) (by omega) (fun _ => 0)
+        (fun i => by have := cnt_unsetKey i kids k s.next; omega)
+        (fun i => ⟨by omega, fun h => by omega⟩)
+      obtain ⟨w1, w2, _, _⟩ := writeBack_ok b i1 a _ i2
+      exact ⟨w1, by rw [w2]; exact i4 false (fun l => Spec.Val.unsetK l k) (erase_unsetKey kids k s.next)⟩
 
-/-- assigning a scalar to a variable -/
-theorem Inv.setVarScalar {s : St} (hinv : Inv s) (x : Nat) (sc : Scalar) : Inv (s.setVar x (.sc sc)) := by
-  simp only [St.setVar]
-  cases hc : s.names[x]? with
-  | none => exact hinv
-  | some c =>
-    have hlt := hinv.wf x c hc
-    have hold : holder? s (.v c) = some s.vcells[c] := by simp [holder?, hlt]
-    have := Inv.overwrite hinv (.v c) _ (.sc sc) s.next hold (Nat.le_refl _)
-      (by intro a k e; cases e) (by simp [innerAids]) (by simp [Val.aids])
-    exact this
+theorem sim_meth {s : St} (hinv : Inv s) (b : Place) (m : Meth) : SimOpt s (.meth b m) := by
+  unfold SimOpt
+  simp only [stepOpt, methAt, Spec.Val.stepOpt]
+  cases hr : readPlace s b with
+  | none => simp only; exact onArray_nocreate_none (abs s) b _ (read_not_arr s b (by simp [hr]))
+  | some w =>
+    cases w with
+    | sc sc => simp only; exact onArray_nocreate_none (abs s) b _ (read_not_arr s b (by simp [hr]))
+    | arr a kids =>
+      simp only
+      obtain ⟨i1, _, _, i4, _⟩ := inplace hinv b a kids (Model.Heap.applyMeth kids m s.next) hr
+        (s.next + 1) (by omega) (fun _ => 0)
+        (fun i => by have := cnt_applyMeth i kids m s.next; omega)
+        (fun i => ⟨by omega, fun h => by omega⟩)
+      exact ⟨i1, i4 false (fun l => Spec.Val.applyMeth l m) (erase_applyMeth kids m s.next)⟩
+
+theorem sim_setIdx {s : St} (hinv : Inv s) (b : Place) (k : Option IKey) (r : RV) : SimOpt s (.setIdx b k r) := by
+  unfold SimOpt
+  rcases evalRV_cases s r with ⟨h1, h2⟩ | ⟨v, n1, h1, h2, hle⟩
+  · simp [stepOpt, h1, Spec.Val.stepOpt, h2]
+  · have := setIdx_sim b hinv k v n1 hle
+    unfold SetIdxGoal at this
+    simp only [stepOpt, h1, Spec.Val.stepOpt, h2]
+    cases hs : setIdx .fixed b { s with next := n1 } k v with
+    | none => rw [hs] at this; exact this
+    | some s' => rw [hs] at this; exact ⟨this.1, this.2.2.2⟩
 
 end Proofs.Heap
